@@ -65,7 +65,7 @@ def plan(tier, seed):
     items.append({"kind": "urlgrid", "scheme": "ws", "exhaustive": "URL grid scheme x host form x port x path x query"})
     items.append({"kind": "urlgrid", "scheme": "wss", "exhaustive": "URL grid scheme x host form x port x path x query"})
     items.append({"kind": "malformed", "exhaustive": "all malformed URL variants"})
-    n = 6000 if tier == "quick" else 120000
+    n = 6000 if tier == "quick" else 480000
     per = 250 if tier == "quick" else 2500
     for s in range(0, n, per):
         items.append({"kind": "rand", "start": s, "count": per})
